@@ -114,7 +114,7 @@ def blockScalarLines (literal : Bool) (indent : Nat) : Nat → BlkAcc → S BlkA
     if s.mark.col != indent then pure a
     else if ← liftI In.nextIsZ then pure a
     else do
-      let stop ← if indent == 0 then do lookahead 4; liftI In.nextIsDocumentEnd else pure false
+      let stop ← if indent == 0 then do lookahead 4; liftI In.nextIsDocumentIndicator else pure false
       if stop then pure a
       else do
         let trailingBlank ← liftI In.nextIsBlank
@@ -190,7 +190,13 @@ def scanBlockScalarBody (literal : Bool) (startMark : Marker) : S Token := do
         pure ⟨⟨startMark, s.mark⟩, .scalar style contents⟩
       else do
         let s ← getS
-        if s.mark.col < indent && (s.mark.col : Int) > s.indent then
+        -- a document marker in the first column ends the (empty) scalar
+        let marker ←
+          if s.mark.col < indent && (s.mark.col : Int) > s.indent then do
+            lookahead 4
+            if s.mark.col == 0 then liftI In.nextIsDocumentIndicator else pure false
+          else pure true
+        if !marker then
           err s.mark "wrongly indented line in block scalar"
         else do
           let startMark2 := s.mark
